@@ -101,6 +101,13 @@ pub fn meta(id: &str) -> Option<CheckMeta> {
 }
 
 pub fn worker(ctx: &WorkerCtx) -> WorkerResult {
+    if ctx.id == "C09" {
+        let r = history::worker(ctx);
+        let res = std::cell::RefCell::new(r);
+        conc::worker_c09_conc(ctx, &res);
+        fault::worker_hang_only(ctx, &res);
+        return res.into_inner();
+    }
     if HISTORY_IDS.contains(&ctx.id.as_str()) {
         return history::worker(ctx);
     }
@@ -124,6 +131,7 @@ pub fn replay_value(v: &Value) -> Result<(), String> {
         "crashpoint" => crash::replay(v),
         "logfmt" => logfmt::replay(v),
         "faultpoint" => fault::replay(v),
+        "faultpoint-termination" => fault::replay_termination(v),
         "corruptpoint" => corrupt::replay(v),
         "conc" => conc::replay(v),
         "tablefmt" | "filterpolicy" => tablefmt::replay(v),
